@@ -216,10 +216,118 @@ def o3 : Obj := ⟨3, 7, true⟩
 example : healthy (run init [.add [o1], .remove [o2], .add [o3], .mark o1 false]) = [(7, 3)] := by decide
 example : runChecks 2 2 ⟨true, 0, 0⟩ [false, false, true, false, false, false] = ⟨false, 0, 0⟩ := by decide
 
+
+/-! ### whatever leaves the set is latched -/
+
+/-- the invariant behind "removal closes established connections": an object that was stored
+and is not stored any more has its removal latch closed, or it is still the object stored under
+its address.  `Latched s0 s`: every object stored in `s0` is stored at the same address in `s` or latched in `s`. -/
+def Latched (s0 s : State) : Prop := ∀ a old, s0.all a = some old → s.all a = some old ∨ s.removed old = true
+
+theorem latched_refl (s : State) : Latched s s := fun _ _ h => Or.inl h
+
+theorem addOne_keeps_or_latches (s : State) (o : Obj) (a old : Nat) (h : s.all a = some old) :
+    (addOne s o).all a = some old ∨ (addOne s o).removed old = true := by
+  unfold addOne
+  split
+  · exact Or.inl h
+  · rename_i hne
+    by_cases ha : a = o.addr
+    · subst ha
+      by_cases hid : old = o.id
+      · left; simp [addOneRepl, upd, hid]
+      · right
+        have ht : storedTier s o.addr (some o.id) = some (typOf s old) := by
+          simp [storedTier, h, hid]
+        simp [addOneRepl, ht, h, upd]
+    · left; simp [addOneRepl, upd, ha, h]
+
+theorem addOne_removed_mono (s : State) (o : Obj) (i : Nat) (h : s.removed i = true) : (addOne s o).removed i = true := by
+  unfold addOne
+  split
+  · exact h
+  · simp only [addOneRepl]
+    split <;> simp [upd, h] <;> (intro _; exact h)
+
+theorem removeOne_keeps_or_latches (s : State) (o : Obj) (a old : Nat) (h : s.all a = some old) :
+    (removeOne s o).all a = some old ∨ (removeOne s o).removed old = true := by
+  by_cases ha : a = o.addr
+  · subst ha
+    right
+    simp [removeOne, h, upd]
+  · left; simp [removeOne, upd, ha, h]
+
+theorem removeOne_removed_mono (s : State) (o : Obj) (i : Nat) (h : s.removed i = true) : (removeOne s o).removed i = true := by
+  simp only [removeOne]
+  cases hs : s.all o.addr <;> simp [upd, h]
+
+theorem mark_all_removed (s : State) (o : Obj) (hl : Bool) : (mark s o hl).1.all = s.all ∧ (mark s o hl).1.removed = s.removed := by
+  unfold mark
+  split <;> exact ⟨rfl, rfl⟩
+
+theorem latched_fold (f : State → Obj → State)
+    (hk : ∀ s o a old, s.all a = some old → (f s o).all a = some old ∨ (f s o).removed old = true)
+    (hm : ∀ s o i, s.removed i = true → (f s o).removed i = true) :
+    ∀ (os : List Obj) (s0 s : State), Latched s0 s → (∀ i, s0.removed i = true → s.removed i = true) →
+      Latched s0 (os.foldl f s) ∧ (∀ i, s0.removed i = true → (os.foldl f s).removed i = true) := by
+  intro os
+  induction os with
+  | nil => intro s0 s h hmono; exact ⟨h, hmono⟩
+  | cons o os ih =>
+    intro s0 s h hmono
+    apply ih s0 (f s o)
+    · intro a old hold
+      rcases h a old hold with h1 | h1
+      · exact hk s o a old h1
+      · exact Or.inr (hm s o old h1)
+    · intro i hi; exact hm s o i (hmono i hi)
+
+/-- **Whatever leaves the set is latched, after every history.**  For every sequence of additions
+(also of hosts that are already members, as equal or as differently typed objects), removals,
+replacements and health marks: an object that was stored at the start is still the stored object of
+its address, or its removal latch is closed — so the connections established through it are told. -/
+theorem retired_objects_are_latched : ∀ (ops : List Op) (s0 s : State), Latched s0 s →
+    (∀ i, s0.removed i = true → s.removed i = true) →
+    Latched s0 (run s ops) ∧ (∀ i, s0.removed i = true → (run s ops).removed i = true) := by
+  intro ops
+  induction ops with
+  | nil => intro s0 s h hm; exact ⟨h, hm⟩
+  | cons op rest ih =>
+    intro s0 s h hm
+    simp only [run, List.foldl_cons]
+    apply ih
+    all_goals
+      cases op with
+      | add os =>
+        have := latched_fold addOne addOne_keeps_or_latches addOne_removed_mono os s0 s h hm
+        first | exact this.1 | exact this.2
+      | remove os =>
+        have := latched_fold removeOne removeOne_keeps_or_latches removeOne_removed_mono os s0 s h hm
+        first | exact this.1 | exact this.2
+      | replaceAll os =>
+        have h1 := latched_fold removeOne removeOne_keeps_or_latches removeOne_removed_mono (stored s) s0 s h hm
+        have h2 := latched_fold addOne addOne_keeps_or_latches addOne_removed_mono os s0 _ h1.1 h1.2
+        first | exact h2.1 | exact h2.2
+      | mark o hl =>
+        have hx := mark_all_removed s o hl
+        first
+          | (intro a old hold; simp only [step]; rw [hx.1, hx.2]; exact h a old hold)
+          | (intro i hi; simp only [step]; rw [hx.2]; exact hm i hi)
+
+/-- the defect that was repaired (F-06b): re-adding a member as a fresh equal object replaced the
+stored object without latching it; the later removal latched the newcomer only -/
+example :
+    let o1 : Obj := ⟨1, 7, true⟩
+    let o2 : Obj := ⟨2, 7, true⟩
+    let s := run init [.add [o1], .add [o2], .remove [o2]]
+    s.all 7 = none ∧ s.removed 1 = true := by
+  refine ⟨by decide, by decide⟩
+
 end SamVerif.Props.C15
 
 #print axioms SamVerif.Props.C15.usable_correct
 #print axioms SamVerif.Props.C15.usable_sorted
+#print axioms SamVerif.Props.C15.retired_objects_are_latched
 #print axioms SamVerif.Props.C15.removed_not_member
 #print axioms SamVerif.Props.C15.remove_latches_stored
 #print axioms SamVerif.Props.C15.flip_needs_run
